@@ -13,11 +13,17 @@ import (
 
 // direct is the in-process transport: it calls Server.ServeHTTP and mimics http.Transport where
 // the generated code depends on it (a non-nil body with ContentLength 0 means "unknown length").
-type direct struct{ srv http.Handler }
+type direct struct {
+	srv  http.Handler
+	last **http.Request // when set: the request of the last call (parameter operations: no body)
+}
 
 func (d direct) Do(r *http.Request) (*http.Response, error) {
 	if r.Body != nil && r.Body != http.NoBody && r.ContentLength == 0 {
 		r.ContentLength = -1
+	}
+	if d.last != nil {
+		*d.last = r.Clone(r.Context())
 	}
 	rec := httptest.NewRecorder()
 	d.srv.ServeHTTP(rec, r)
